@@ -1,4 +1,5 @@
 CONSTANTS DMax = 6
 BatchSet = {0, 1, 2, 3}
+ExpDims = {2, 5, 6, 8, 10}
 SPECIFICATION Spec
 INVARIANT TypeOK
